@@ -64,9 +64,10 @@ def Phase (p : Prog) (s : S) (x : Option JobId) (j : JobId) : Prop :=
 def FailedOk (s : S) (j : JobId) : Prop :=
   (s.jobs j).evalFailed = true → ¬ pend s j ∨ Ev.reject j ∈ s.queue
 
-/-- The lifecycle invariant; `x` is the job whose event is being handled. -/
-structure Live (p : Prog) (s : S) (x : Option JobId) : Prop where
-  ph : ∀ j, j < s.next → pend s j → some j ≠ x → Phase p s x j
+/-- The lifecycle invariant; `x` is the job whose event is being handled (exempt from `ph`, `failed`,
+`reg`), `y` the job that is being settled (still accepted as a collapse target). -/
+structure Live (p : Prog) (s : S) (x y : Option JobId) : Prop where
+  ph : ∀ j, j < s.next → pend s j → some j ≠ x → Phase p s y j
   failed : ∀ j, some j ≠ x → FailedOk s j
   reg : ∀ k t, (k, t) ∈ s.pendingJobs → keyOf p s t = k ∧ t < s.next ∧ ¬ Tw s t ∧ EW s t = 0 ∧
     lookupPending s k = some t ∧ (some t ≠ x → pend s t)
@@ -152,7 +153,7 @@ theorem Fr.failedOk {s s' : S} (h : Fr s s') {j : JobId} (hf : FailedOk s j) : F
 theorem Fr.lookup {s s' : S} (h : Fr s s') (k : Nat × Nat) : lookupPending s' k = lookupPending s k := by
   unfold lookupPending; rw [h.pj]
 
-theorem Fr.live {p : Prog} {s s' : S} {x : Option JobId} (h : Fr s s') (hl : Live p s x) : Live p s' x := by
+theorem Fr.live {p : Prog} {s s' : S} {x y : Option JobId} (h : Fr s s') (hl : Live p s x y) : Live p s' x y := by
   refine ⟨?_, ?_, ?_, ?_, ?_, ?_, ?_, ?_⟩
   · intro j hj hp hx
     rw [h.next] at hj
@@ -182,5 +183,458 @@ theorem Fr.live {p : Prog} {s s' : S} {x : Option JobId} (h : Fr s s') (hl : Liv
     rcases c with c | c
     · exact Or.inl ((h.pendIff 0).mpr c)
     · exact Or.inr (by rw [h.fin]; exact c)
+
+
+/-! ## part 2: primitives that are frames -/
+
+theorem fr_of_eq {s s' : S} (h1 : s'.next = s.next) (h2 : s'.specOf = s.specOf) (h3 : s'.inflight = s.inflight)
+    (h4 : s'.pendingJobs = s.pendingJobs) (h5 : s'.finished = s.finished) (h6 : s'.jobs = s.jobs)
+    (h7 : s'.queue = s.queue) (h8 : s'.pendingLimits = s.pendingLimits) : Fr s s' :=
+  ⟨h1, h2, h3, h4, h5, fun _ => by rw [h6], fun _ => by rw [h6], fun _ => by rw [h6], fun _ => by rw [h6],
+    fun _ => by rw [h6], fun _ => by unfold EW; rw [h7, h8], fun _ _ h => by rw [h7]; exact h⟩
+
+theorem fr_setJob (s : S) (j : JobId) (f : JobSt → JobSt)
+    (h : ∀ js, (f js).status = js.status ∧ (f js).waiting = js.waiting ∧ (f js).evalFailed = js.evalFailed ∧
+      (f js).parent = js.parent ∧ (f js).twins = js.twins) : Fr s (setJob s j f) := by
+  refine ⟨rfl, rfl, rfl, rfl, rfl, ?_, ?_, ?_, ?_, ?_, fun _ => rfl, fun _ _ h => h⟩ <;>
+  · intro i; simp only [setJob]; split
+    · first | exact (h _).1 | exact (h _).2.1 | exact (h _).2.2.1 | exact (h _).2.2.2.1 | exact (h _).2.2.2.2
+    · rfl
+
+theorem fr_enqueue (s : S) (e : Ev) (he : ∀ j, e ≠ Ev.exec j) : Fr s (enqueue s e) := by
+  refine ⟨rfl, rfl, rfl, rfl, rfl, fun _ => rfl, fun _ => rfl, fun _ => rfl, fun _ => rfl, fun _ => rfl, ?_, ?_⟩
+  · intro j; unfold EW enqueue
+    simp only [List.count_append, List.count_cons, List.count_nil]
+    have : ¬ (e == Ev.exec j) = true := by simpa using he j
+    simp [this]
+  · intro e' _ hm; exact List.mem_append_left _ hm
+
+theorem fr_checkPending (p : Prog) (s : S) : Fr s (checkPending p s) :=
+  ⟨rfl, rfl, rfl, rfl, rfl, fun _ => rfl, fun _ => rfl, fun _ => rfl, fun _ => rfl, fun _ => rfl,
+    fun j => checkPending_EW p s j, fun _ _ hm => by rw [checkPending_queue]; exact List.mem_append_left _ hm⟩
+
+theorem fr_consume (p : Prog) (s : S) (j : JobId) : Fr s (consume p s j) := fr_of_eq rfl rfl rfl rfl rfl rfl rfl rfl
+theorem fr_release (p : Prog) (s : S) (j : JobId) : Fr s (release p s j) := fr_of_eq rfl rfl rfl rfl rfl rfl rfl rfl
+
+theorem fr_releaseIf (p : Prog) (s : S) (j : JobId) : Fr s (releaseIf p s j) := by
+  unfold releaseIf; split
+  · exact (fr_release p s j).trans (fr_checkPending p _)
+  · exact Fr.refl s
+
+theorem fr_record (p : Prog) (s : S) (j : JobId) (b : Bool) : Fr s (record p s j b) := by
+  unfold record; dsimp only; split
+  · exact fr_of_eq rfl rfl rfl rfl rfl rfl rfl rfl
+  · exact Fr.refl s
+
+theorem fr_cached (s : S) (j : JobId) : Fr s (setJob s j fun js => { js with wasCached := true }) :=
+  fr_setJob s j _ (fun _ => ⟨rfl, rfl, rfl, rfl, rfl⟩)
+
+theorem mem_enqueue (s : S) (e : Ev) : e ∈ (enqueue s e).queue := by simp [enqueue]
+
+
+/-! ## part 3: taking the head event off the queue -/
+
+def evJob : Ev → JobId
+  | .exec j => j
+  | .done j _ => j
+  | .reject j => j
+  | .resolve j => j
+
+theorem tl_mem_of_ne (s : S) (e : Ev) (rest : List Ev) (hq : s.queue = e :: rest) (e' : Ev) (hne : e' ≠ e)
+    (hm : e' ∈ s.queue) : e' ∈ (tl s).queue := by
+  show e' ∈ s.queue.tail
+  rw [hq] at hm ⊢
+  rcases List.mem_cons.mp hm with a | a
+  · exact absurd a hne
+  · exact a
+
+theorem tl_Q_keep (s : S) (e : Ev) (rest : List Ev) (hq : s.queue = e :: rest) (j : JobId) (hj : evJob e ≠ j)
+    (h : Q s j) : Q (tl s) j := by
+  rcases h with (⟨f, a⟩ | a) | a
+  · exact Or.inl (Or.inl ⟨f, tl_mem_of_ne s e rest hq _ (by intro h; subst h; exact hj rfl) a⟩)
+  · exact Or.inl (Or.inr (tl_mem_of_ne s e rest hq _ (by intro h; subst h; exact hj rfl) a))
+  · exact Or.inr (tl_mem_of_ne s e rest hq _ (by intro h; subst h; exact hj rfl) a)
+
+theorem live_tl (p : Prog) (s : S) (e : Ev) (rest : List Ev) (hq : s.queue = e :: rest) (hl : Live p s none none) :
+    Live p (tl s) (some (evJob e)) none := by
+  refine ⟨?_, ?_, ?_, ?_, ?_, hl.cnt, hl.kid, hl.root⟩
+  · intro j hj hp hx
+    have hne : evJob e ≠ j := fun h => hx (by rw [h])
+    rcases hl.ph j hj hp (by simp) with a | a | a | a | ⟨X, a1, a2, a3, a4, a5⟩
+    · left
+      have := tl_EW_eq s e rest hq j
+      have hne' : e ≠ Ev.exec j := by intro h; subst h; exact hne rfl
+      simp only [hne', if_false] at this
+      omega
+    · exact Or.inr (Or.inl a)
+    · exact Or.inr (Or.inr (Or.inl (tl_Q_keep s e rest hq j hne a)))
+    · exact Or.inr (Or.inr (Or.inr (Or.inl a)))
+    · refine Or.inr (Or.inr (Or.inr (Or.inr ⟨X, a1, ?_, a3, a4, a5⟩)))
+      rcases a2 with b | b
+      · exact Or.inl b
+      · simp at b
+  · intro j hx he
+    have hne : evJob e ≠ j := fun h => hx (by rw [h])
+    rcases hl.failed j (by simp) he with a | a
+    · exact Or.inl a
+    · exact Or.inr (tl_mem_of_ne s e rest hq _ (by intro h; subst h; exact hne rfl) a)
+  · intro k t hm
+    obtain ⟨a, b, c, d, e', f⟩ := hl.reg k t hm
+    exact ⟨a, b, c, Nat.le_zero.mp (d ▸ tl_EW_le s t), e', fun _ => f (by simp)⟩
+  · intro j hj
+    exact hl.a1 j (Nat.le_trans hj (tl_EW_le s j))
+  · intro X t ht
+    obtain ⟨a, b⟩ := hl.twq X t ht
+    exact ⟨Nat.le_zero.mp (a ▸ tl_EW_le s t), b⟩
+
+/-- the failed-flag fact of the handled job survives unless its own `reject` was taken off -/
+theorem failedOk_tl (p : Prog) (s : S) (e : Ev) (rest : List Ev) (hq : s.queue = e :: rest) (hl : Live p s none none)
+    (j : JobId) (hne : e ≠ Ev.reject j) : FailedOk (tl s) j := by
+  intro he
+  rcases hl.failed j (by simp) he with a | a
+  · exact Or.inl a
+  · exact Or.inr (tl_mem_of_ne s e rest hq _ (fun h => hne h.symm) a)
+
+
+/-! ## part 4: exemption handling -/
+
+theorem live_weaken {p : Prog} {s : S} (j : JobId) (hl : Live p s none none) : Live p s (some j) none := by
+  refine ⟨?_, fun i _ => hl.failed i (by simp), ?_, hl.a1, hl.twq, hl.cnt, hl.kid, hl.root⟩
+  · intro i hi hp _
+    rcases hl.ph i hi hp (by simp) with a | a | a | a | ⟨X, a1, a2, a3, a4, a5⟩
+    · exact Or.inl a
+    · exact Or.inr (Or.inl a)
+    · exact Or.inr (Or.inr (Or.inl a))
+    · exact Or.inr (Or.inr (Or.inr (Or.inl a)))
+    · refine Or.inr (Or.inr (Or.inr (Or.inr ⟨X, a1, ?_, a3, a4, a5⟩)))
+      rcases a2 with b | b
+      · exact Or.inl b
+      · simp at b
+  · intro k t hm
+    obtain ⟨a, b, c, d, e, f⟩ := hl.reg k t hm
+    exact ⟨a, b, c, d, e, fun _ => f (by simp)⟩
+
+/-- end of a handler: the handled job `j` is back in a phase (or settled, its twins served) -/
+theorem live_fill {p : Prog} {s : S} {j : JobId} (hl : Live p s (some j) none)
+    (hph : pend s j → j < s.next → Phase p s none j) (hf : FailedOk s j)
+    (hreg : ∀ k, (k, j) ∈ s.pendingJobs → pend s j) : Live p s none none := by
+  refine ⟨?_, ?_, ?_, hl.a1, hl.twq, hl.cnt, hl.kid, hl.root⟩
+  · intro i hi hp _
+    by_cases hij : i = j
+    · subst hij; exact hph hp hi
+    · exact hl.ph i hi hp (fun h => hij (Option.some.inj h))
+  · intro i _
+    by_cases hij : i = j
+    · subst hij; exact hf
+    · exact hl.failed i (fun h => hij (Option.some.inj h))
+  · intro k t hm
+    obtain ⟨a, b, c, d, e, f⟩ := hl.reg k t hm
+    refine ⟨a, b, c, d, e, fun _ => ?_⟩
+    by_cases htj : t = j
+    · subst htj; exact hreg k hm
+    · exact f (fun h => htj (Option.some.inj h))
+
+theorem cntPend_congr {s s' : S} (hn : s'.next = s.next) (hp : ∀ c, (s'.jobs c).parent = (s.jobs c).parent)
+    (hs : ∀ c, (s'.jobs c).status = (s.jobs c).status) (i : JobId) : cntPend s' i = cntPend s i := by
+  unfold cntPend
+  rw [hn]
+  apply cntTo_congr
+  intro c _
+  unfold kidPend
+  rw [hp, hs]
+
+theorem mem_of_lookupPending {s : S} {k : Nat × Nat} {t : JobId} (h : lookupPending s k = some t) :
+    (k, t) ∈ s.pendingJobs := by
+  unfold lookupPending at h
+  cases hf : s.pendingJobs.find? (fun e => e.1 == k) with
+  | none => rw [hf] at h; simp at h
+  | some e =>
+    rw [hf] at h
+    simp at h
+    have h1 := List.mem_of_find?_eq_some hf
+    have h2 := List.find?_some hf
+    simp at h2
+    cases e with
+    | mk a b =>
+      simp at h h2
+      subst h; subst h2
+      exact h1
+
+
+/-! ## part 5: the exits of `_exec_job_main_thread` -/
+
+theorem EW_pendAppend (s : S) (j i : JobId) :
+    EW { s with pendingLimits := s.pendingLimits ++ [j] } i = EW s i + (if i = j then 1 else 0) := by
+  unfold EW
+  simp only [List.count_append, List.count_cons, List.count_nil]
+  by_cases e : i = j
+  · subst e; simp; omega
+  · have : ¬ (j == i) = true := by simpa using fun e' => e e'.symm
+    simp [e, this]
+
+/-- the job does not fit: it joins the waiting list -/
+theorem live_pendAppend {p : Prog} {s : S} {j : JobId} (hl : Live p s (some j) none) (hp : pend s j)
+    (htw : (s.jobs j).twins = []) (hnt : ¬ Tw s j) (hnr : ∀ k, (k, j) ∉ s.pendingJobs) (hf : FailedOk s j) :
+    Live p { s with pendingLimits := s.pendingLimits ++ [j] } none none := by
+  have hEW := EW_pendAppend s j
+  have hle : ∀ i, EW s i ≤ EW { s with pendingLimits := s.pendingLimits ++ [j] } i := by
+    intro i; rw [hEW]; omega
+  have hne : ∀ i, i ≠ j → EW { s with pendingLimits := s.pendingLimits ++ [j] } i = EW s i := by
+    intro i hi; rw [hEW]; simp [hi]
+  have h1 : Live p { s with pendingLimits := s.pendingLimits ++ [j] } (some j) none := by
+    refine ⟨?_, hl.failed, ?_, ?_, ?_, hl.cnt, hl.kid, hl.root⟩
+    · intro i hi hpi hx
+      rcases hl.ph i hi hpi hx with a | a | a | a | a
+      · exact Or.inl (Nat.le_trans a (hle i))
+      · exact Or.inr (Or.inl a)
+      · exact Or.inr (Or.inr (Or.inl a))
+      · exact Or.inr (Or.inr (Or.inr (Or.inl a)))
+      · exact Or.inr (Or.inr (Or.inr (Or.inr a)))
+    · intro k t hm
+      obtain ⟨a, b, c, d, e, f⟩ := hl.reg k t hm
+      have : t ≠ j := by intro h; subst h; exact hnr k hm
+      exact ⟨a, b, c, by rw [hne t this]; exact d, e, f⟩
+    · intro i hi
+      by_cases hij : i = j
+      · subst hij; exact ⟨hp, htw⟩
+      · rw [hne i hij] at hi; exact hl.a1 i hi
+    · intro X t ht
+      obtain ⟨a, b⟩ := hl.twq X t ht
+      have : t ≠ j := by intro h; subst h; exact hnt ⟨X, ht⟩
+      exact ⟨by rw [hne t this]; exact a, b⟩
+  refine live_fill h1 (fun _ _ => Or.inl ?_) hf (fun _ _ => hp)
+  rw [hEW]; simp
+
+/-- `Job.collapse`: `j` joins the twins of the registered job `t` -/
+theorem live_addTwin {p : Prog} {s : S} {j t : JobId} (hl : Live p s (some j) none) (hp : pend s j)
+    (hreg : (keyOf p s j, t) ∈ s.pendingJobs) (hne : t ≠ j) (htw : (s.jobs j).twins = []) (hnt : ¬ Tw s j)
+    (hew : EW s j = 0) (hlt : j < s.next) (hnr : ∀ k, (k, j) ∉ s.pendingJobs) (hf : FailedOk s j) :
+    Live p (setJob s t fun js => { js with twins := js.twins ++ [j] }) none none := by
+  generalize hs' : (setJob s t fun js => { js with twins := js.twins ++ [j] }) = s'
+  have hst : ∀ i, (s'.jobs i).status = (s.jobs i).status := by
+    intro i; rw [← hs']; simp only [setJob]; split <;> rfl
+  have hwt : ∀ i, (s'.jobs i).waiting = (s.jobs i).waiting := by
+    intro i; rw [← hs']; simp only [setJob]; split <;> rfl
+  have hef : ∀ i, (s'.jobs i).evalFailed = (s.jobs i).evalFailed := by
+    intro i; rw [← hs']; simp only [setJob]; split <;> rfl
+  have hpar : ∀ i, (s'.jobs i).parent = (s.jobs i).parent := by
+    intro i; rw [← hs']; simp only [setJob]; split <;> rfl
+  have htwins : ∀ i, (s'.jobs i).twins = if i = t then (s.jobs i).twins ++ [j] else (s.jobs i).twins := by
+    intro i; rw [← hs']; simp only [setJob]; split <;> rfl
+  have hmono : ∀ i u, u ∈ (s.jobs i).twins → u ∈ (s'.jobs i).twins := by
+    intro i u hu; rw [htwins]; split
+    · exact List.mem_append_left _ hu
+    · exact hu
+  have hinv : ∀ i u, u ∈ (s'.jobs i).twins → u ∈ (s.jobs i).twins ∨ (u = j ∧ i = t) := by
+    intro i u hu; rw [htwins] at hu; split at hu
+    · rename_i e
+      rcases List.mem_append.mp hu with a | a
+      · exact Or.inl a
+      · simp at a; exact Or.inr ⟨a, e⟩
+    · exact Or.inl hu
+  have hTw : ∀ u, Tw s' u → Tw s u ∨ u = j := by
+    rintro u ⟨X, hX⟩
+    rcases hinv X u hX with a | a
+    · exact Or.inl ⟨X, a⟩
+    · exact Or.inr a.1
+  have hrest : s'.next = s.next ∧ s'.specOf = s.specOf ∧ s'.inflight = s.inflight ∧ s'.pendingJobs = s.pendingJobs ∧
+      s'.finished = s.finished ∧ s'.queue = s.queue ∧ s'.pendingLimits = s.pendingLimits := by
+    rw [← hs']; exact ⟨rfl, rfl, rfl, rfl, rfl, rfl, rfl⟩
+  obtain ⟨f1, f2, f3, f4, f5, f6, f7⟩ := hrest
+  have hEW : ∀ i, EW s' i = EW s i := by intro i; unfold EW; rw [f6, f7]
+  have hpend : ∀ i, pend s' i ↔ pend s i := by intro i; unfold pend; rw [hst]
+  have hQ : ∀ i, Q s i → Q s' i := by intro i; unfold Q C; rw [f6]; exact id
+  have hspec : ∀ i, spec p s' i = spec p s i := fun i => same_spec f2 i
+  obtain ⟨r1, r2, r3, r4, r5, r6⟩ := hl.reg _ t hreg
+  have hpt : pend s t := r6 (fun h => hne (Option.some.inj h))
+  have h1 : Live p s' (some j) none := by
+    refine ⟨?_, ?_, ?_, ?_, ?_, ?_, ?_, ?_⟩
+    · intro i hi hpi hx
+      rw [f1] at hi
+      rcases hl.ph i hi ((hpend i).mp hpi) hx with a | a | a | a | ⟨X, a1, a2, a3, a4, a5⟩
+      · exact Or.inl (by rw [hEW]; exact a)
+      · exact Or.inr (Or.inl (by rw [f3]; exact a))
+      · exact Or.inr (Or.inr (Or.inl (hQ i a)))
+      · exact Or.inr (Or.inr (Or.inr (Or.inl (by unfold EvalPh; rw [hef, hwt]; exact a))))
+      · refine Or.inr (Or.inr (Or.inr (Or.inr ⟨X, hmono X i a1, ?_, by rw [f1]; exact a3, ?_, ?_⟩)))
+        · rcases a2 with b | b
+          · exact Or.inl ((hpend X).mpr b)
+          · exact Or.inr b
+        · intro h
+          rcases hTw X h with c | c
+          · exact a4 c
+          · subst c; rw [htw] at a1; simp at a1
+        · rw [hspec, hspec]; exact a5
+    · intro i hx he
+      rw [hef] at he
+      rcases hl.failed i hx he with a | a
+      · exact Or.inl (fun b => a ((hpend i).mp b))
+      · exact Or.inr (by rw [f6]; exact a)
+    · intro k u hm
+      rw [f4] at hm
+      obtain ⟨a, b, c, d, e, f⟩ := hl.reg k u hm
+      refine ⟨by unfold keyOf; rw [hspec]; exact a, by rw [f1]; exact b, ?_, by rw [hEW]; exact d,
+        by unfold lookupPending; rw [f4]; exact e, fun hx => (hpend u).mpr (f hx)⟩
+      intro h
+      rcases hTw u h with c' | c'
+      · exact c c'
+      · subst c'; exact hnr k hm
+    · intro i hi
+      rw [hEW] at hi
+      obtain ⟨a, b⟩ := hl.a1 i hi
+      refine ⟨(hpend i).mpr a, ?_⟩
+      rw [htwins]; split
+      · rename_i e; subst e; rw [r4] at hi; omega
+      · exact b
+    · intro X u hu
+      rw [hEW, f1]
+      rcases hinv X u hu with a | a
+      · exact hl.twq X u a
+      · rw [a.1]; exact ⟨hew, hlt⟩
+    · intro i hi
+      rw [hef] at hi
+      rw [hwt, cntPend_congr f1 hpar hst]; exact hl.cnt i hi
+    · intro c par hc hpc
+      rw [f1] at hc; rw [hpar] at hpc
+      rw [f1, f2]; exact hl.kid c par hc hpc
+    · obtain ⟨a, b, c⟩ := hl.root
+      refine ⟨by rw [hpar]; exact a, by rw [f1]; exact b, ?_⟩
+      rcases c with c | c
+      · exact Or.inl ((hpend 0).mpr c)
+      · exact Or.inr (by rw [f5]; exact c)
+  have hfj : FailedOk s' j := by
+    intro he; rw [hef] at he
+    rcases hf he with a | a
+    · exact Or.inl (fun b => a ((hpend j).mp b))
+    · exact Or.inr (by rw [f6]; exact a)
+  refine live_fill h1 (fun _ _ => ?_) hfj (fun _ _ => (hpend j).mpr hp)
+  refine Or.inr (Or.inr (Or.inr (Or.inr ⟨t, ?_, Or.inl ((hpend t).mpr hpt), by rw [f1]; exact r2, ?_, ?_⟩)))
+  · rw [htwins]; simp
+  · intro h
+    rcases hTw t h with c | c
+    · exact r3 c
+    · exact hne c
+  · rw [hspec, hspec]
+    have := r1; unfold keyOf at this
+    exact (Prod.mk.inj this).1
+
+
+/-! ## part 6: registration and the in-flight flag -/
+
+theorem lookupPending_append_old (s : S) (k k' : Nat × Nat) (j t : JobId) (h : lookupPending s k' = some t) :
+    lookupPending { s with pendingJobs := s.pendingJobs ++ [(k, j)] } k' = some t := by
+  unfold lookupPending at h ⊢
+  simp only [List.find?_append]
+  cases hf : s.pendingJobs.find? (fun e => e.1 == k') with
+  | none => rw [hf] at h; simp at h
+  | some e => rw [hf] at h; simpa using h
+
+theorem lookupPending_append_new (s : S) (k : Nat × Nat) (j : JobId) (h : lookupPending s k = none) :
+    lookupPending { s with pendingJobs := s.pendingJobs ++ [(k, j)] } k = some j := by
+  unfold lookupPending at h ⊢
+  simp only [List.find?_append]
+  cases hf : s.pendingJobs.find? (fun e => e.1 == k) with
+  | none => simp
+  | some e => rw [hf] at h; simp at h
+
+/-- `_pending_jobs.setdefault(key, job)` for a job that is about to be submitted -/
+theorem live_regAppend {p : Prog} {s : S} {j : JobId} {k : Nat × Nat} (hl : Live p s (some j) none)
+    (hk : keyOf p s j = k) (hnone : lookupPending s k = none) (hnt : ¬ Tw s j) (hew : EW s j = 0)
+    (hlt : j < s.next) : Live p { s with pendingJobs := s.pendingJobs ++ [(k, j)] } (some j) none := by
+  refine ⟨hl.ph, hl.failed, ?_, hl.a1, hl.twq, hl.cnt, hl.kid, hl.root⟩
+  intro k' t hm
+  rcases List.mem_append.mp hm with a | a
+  · obtain ⟨a1, a2, a3, a4, a5, a6⟩ := hl.reg k' t a
+    exact ⟨a1, a2, a3, a4, lookupPending_append_old s k k' j t a5, a6⟩
+  · simp at a
+    obtain ⟨e1, e2⟩ := a
+    subst e1; subst e2
+    exact ⟨hk, hlt, hnt, hew, lookupPending_append_new s _ t hnone, fun h => absurd rfl h⟩
+
+theorem live_setInfl {p : Prog} {s : S} {j : JobId} (b : Bool) (sub : List JobId) (hl : Live p s (some j) none) :
+    Live p { s with inflight := fun i => if i = j then b else s.inflight i, submits := sub } (some j) none := by
+  refine ⟨?_, hl.failed, hl.reg, hl.a1, hl.twq, hl.cnt, hl.kid, hl.root⟩
+  intro i hi hp hx
+  have hij : i ≠ j := fun h => hx (by rw [h])
+  rcases hl.ph i hi hp hx with a | a | a | a | a
+  · exact Or.inl a
+  · refine Or.inr (Or.inl ?_)
+    show (if i = j then b else s.inflight i) = true
+    simp [hij]; exact a
+  · exact Or.inr (Or.inr (Or.inl a))
+  · exact Or.inr (Or.inr (Or.inr (Or.inl a)))
+  · exact Or.inr (Or.inr (Or.inr (Or.inr a)))
+
+
+/-! ## part 7: `_exec_job_main_thread` -/
+
+/-- a handler that ends by queueing a post-exec event of the handled (still pending) job -/
+theorem live_QExit {p : Prog} {s s' : S} {j : JobId} (hl : Live p s (some j) none) (hfr : Fr s s') (hq : Q s' j)
+    (hp : pend s j) (hf : FailedOk s j) : Live p s' none none :=
+  live_fill (hfr.live hl) (fun _ _ => Or.inr (Or.inr (Or.inl hq))) (hfr.failedOk hf)
+    (fun _ _ => (hfr.pendIff j).mpr hp)
+
+theorem Q_of_mem_done {s : S} {j : JobId} {f : Bool} (h : Ev.done j f ∈ s.queue) : Q s j := Or.inl (Or.inl ⟨f, h⟩)
+theorem Q_of_mem_reject {s : S} {j : JobId} (h : Ev.reject j ∈ s.queue) : Q s j := Or.inl (Or.inr h)
+theorem Q_of_mem_resolve {s : S} {j : JobId} (h : Ev.resolve j ∈ s.queue) : Q s j := Or.inr h
+
+theorem live_cachedExit {p : Prog} {s : S} {j : JobId} (ev : Ev) (hev : (∃ f, ev = Ev.done j f) ∨ ev = Ev.reject j)
+    (hl : Live p s (some j) none) (hp : pend s j) (hf : FailedOk s j) :
+    Live p (enqueue (checkPending p (setJob s j fun js => { js with wasCached := true })) ev) none none := by
+  have hne : ∀ k, ev ≠ Ev.exec k := by
+    intro k; rcases hev with ⟨f, rfl⟩ | rfl <;> simp
+  refine live_QExit hl (((fr_cached s j).trans (fr_checkPending p _)).trans (fr_enqueue _ ev hne)) ?_ hp hf
+  rcases hev with ⟨f, rfl⟩ | rfl
+  · exact Q_of_mem_done (mem_enqueue _ _)
+  · exact Q_of_mem_reject (mem_enqueue _ _)
+
+theorem execJob_live (p : Prog) (hd : p.dryrun = false) (s : S) (j : JobId) (hl : Live p s (some j) none)
+    (hp : pend s j) (htw : (s.jobs j).twins = []) (hnt : ¬ Tw s j) (hew : EW s j = 0) (hlt : j < s.next)
+    (hnr : ∀ k, (k, j) ∉ s.pendingJobs) (hf : FailedOk s j) : Live p (execJob p s j) none none := by
+  unfold execJob
+  dsimp only
+  split
+  · rename_i t heq
+    have hlk : lookupPending s ((spec p s j).key, (spec p s j).ctx) = some t := by
+      split at heq
+      · exact heq
+      · simp at heq
+    have hmem := mem_of_lookupPending hlk
+    have hne : t ≠ j := by intro h; subst h; exact hnr _ hmem
+    exact (fr_checkPending p _).live (live_addTwin hl hp hmem hne htw hnt hew hlt hnr hf)
+  · rename_i hnotpending
+    split
+    · rename_i isErr _
+      exact live_cachedExit _ (by cases isErr <;> simp) hl hp hf
+    · exact live_cachedExit _ (Or.inl ⟨true, rfl⟩) hl hp hf
+    · exact live_cachedExit _ (Or.inl ⟨false, rfl⟩) hl hp hf
+    · split
+      · exact live_pendAppend hl hp htw hnt hnr hf
+      · simp only [hd, Bool.false_eq_true, if_false]
+        have fc := fr_consume p s j
+        split
+        · exact live_QExit hl (fc.trans (fr_enqueue _ _ (by intro k; simp))) (Q_of_mem_reject (mem_enqueue _ _)) hp hf
+        · -- submit
+          have l1 : Live p (consume p s j) (some j) none := fc.live hl
+          have hnt1 : ¬ Tw (consume p s j) j := hnt
+          have hew1 : EW (consume p s j) j = 0 := hew
+          have hlt1 : j < (consume p s j).next := hlt
+          have l2 : ∃ s2, s2 = (if (!(spec p s j).prov || (lookupPending (consume p s j) ((spec p s j).key, (spec p s j).ctx)).isSome) = true
+                then consume p s j
+                else { consume p s j with pendingJobs := (consume p s j).pendingJobs ++ [(((spec p s j).key, (spec p s j).ctx), j)] }) ∧
+              Live p s2 (some j) none ∧ pend s2 j ∧ FailedOk s2 j := by
+            refine ⟨_, rfl, ?_⟩
+            split
+            · exact ⟨l1, hp, hf⟩
+            · rename_i hc
+              have hnone : lookupPending (consume p s j) ((spec p s j).key, (spec p s j).ctx) = none := by
+                cases h : lookupPending (consume p s j) ((spec p s j).key, (spec p s j).ctx) with
+                | none => rfl
+                | some t => rw [h] at hc; simp at hc
+              exact ⟨live_regAppend l1 rfl hnone hnt1 hew1 hlt1, hp, hf⟩
+          obtain ⟨s2, hs2, l2, hp2, hf2⟩ := l2
+          rw [← hs2]
+          have l3 := live_setInfl true (s2.submits ++ [j]) l2
+          exact live_fill l3 (fun _ _ => Or.inr (Or.inl (by simp))) hf2 (fun _ _ => hp2)
 
 end RedunModel.SchedCore
